@@ -542,6 +542,16 @@ func compactTxList(c *Ctx, r *Rng, k int) [][]byte {
 func genC08(c *Ctx) {
 	c.rule = "blob sequences (1-5 blobs, hot and random lengths, versions 0/1, equal and different namespaces) with namespace padding after blobs and reserved/tail padding around them; rendered by the real writers and parsed back; non-trivial = distinct item list containing a multi-share blob or padding"
 	r := c.rng
+	// the degenerate sequences: NO blob at all, only padding (the blob region of an empty block) - the round
+	// trip must give back the empty blob list
+	for _, arg := range []string{"t:1", "t:2", "t:4", "t:16", "t:0", "r:1", "r:3", "t:2,r:2", "r:2,t:3", "r:1,t:1,r:1", "n:0", "n:0,t:2", "t:" + strconv.Itoa(5+r.Intn(60))} {
+		c.add("sparserr", arg)
+		c.add("sparse", arg)
+		res := safeExec("sparserr", []string{arg})
+		c.check(res == "ok:[]", "ParseBlobs", "a sequence of padding shares without any blob does not parse to the empty blob list", map[string]any{"items": arg, "got": res})
+		c.count("no_blob_only_padding")
+		c.mark("only padding " + arg)
+	}
 	for i := 0; i < 220*c.scale+60; i++ {
 		// the last 60 iterations: a version 1 blob, then - as the very last item, nothing behind it - a version 0
 		// blob that leaves 0..19 unused bytes in its last share (a capacity computed with the signer of the
@@ -583,6 +593,22 @@ func genC08(c *Ctx) {
 				if g.ver == 1 {
 					g.signer = randSigner(r)
 				}
+			}
+			if special < 0 && i >= len(sparseHot)*2 && (i%10 == 3 || i%10 == 8) {
+				// runs of blobs that are EQUAL in every field (namespace, version, signer, data), one share each
+				// (i%10 == 3) or several shares each: their start shares are byte-identical
+				if j == 0 {
+					g.data = r.Bytes(1 + r.Intn(400))
+					if i%10 == 8 {
+						g.data = r.Bytes(500 + r.Intn(1500))
+					}
+					if k < 2 {
+						k = 2 + r.Intn(3)
+					}
+				} else {
+					g = blobs[j-1]
+				}
+				c.count("run_of_identical_blobs")
 			}
 			if special < 0 && r.Intn(7) == 0 {
 				// reserved or tail padding in FRONT of a blob (padding of any kind may sit on either side)
@@ -1013,6 +1039,15 @@ func expectedSubrange(txs [][]byte, nShares, lo, hi int) [][]byte {
 	return out
 }
 
+// parseTxsGuarded: ParseTxs on a sub-range; a panic is a finding (with the range as witness), not a crash of the run
+func parseTxsGuarded(c *Ctx, shs []share.Share, lo, hi int) (got [][]byte, err error) {
+	err = fmt.Errorf("panicked")
+	c.guard("ParseTxs(sub-range)", map[string]any{"lo": lo, "hi": hi, "first_share": hx(shs[0].ToBytes()[:40])}, func() {
+		got, err = share.ParseTxs(shs)
+	})
+	return
+}
+
 func genC11(c *Ctx) {
 	c.rule = "tx lists as in C09 plus one multi-share transaction of delimiter look-alike bytes and 3-byte-prefix straddles; ParseTxs on EVERY contiguous sub-range [lo,hi) of the exported sequence, compared with the set of transactions that begin in the range and are complete in it; non-trivial = distinct (length list, lo, hi) with lo>0 or hi<n"
 	r := c.rng
@@ -1026,6 +1061,16 @@ func genC11(c *Ctx) {
 		{r.Bytes(470), r.Bytes(16386)},                                                // truncated prefix decodes to a small length
 		{r.Bytes(30), bytes.Repeat([]byte{1, 0x80, 2}, 900), r.Bytes(30), r.Bytes(3)}, // a tx covering 5+ shares of delimiter look-alikes
 		{r.Bytes(1500), r.Bytes(402), {0x07}, r.Bytes(40)},                            // a ONE-byte tx ending exactly on a share end
+		// a unit whose length sits on a prefix-width boundary (128, 16384: the prefix is one byte wider than that
+		// of any shorter remainder) and whose last 1, 2 or 3 bytes lie in the next share
+		{r.Bytes(343), r.Bytes(128), r.Bytes(50)},
+		{r.Bytes(344), r.Bytes(128), r.Bytes(50)},
+		{r.Bytes(345), r.Bytes(128)},
+		{r.Bytes(343 + 478), r.Bytes(128), r.Bytes(5)},
+		{r.Bytes(338), r.Bytes(16384), r.Bytes(5)},
+		{r.Bytes(339), r.Bytes(16384)},
+		{r.Bytes(342), r.Bytes(129), r.Bytes(50)},
+		{r.Bytes(344), r.Bytes(127), r.Bytes(50)},
 	}
 	{
 		// 700 one-byte transactions: a unit ends on every share end
@@ -1057,7 +1102,7 @@ func genC11(c *Ctx) {
 					if lo < 0 || hi > n || hi <= lo {
 						continue
 					}
-					got, err := share.ParseTxs(shs[lo:hi])
+					got, err := parseTxsGuarded(c, shs[lo:hi], lo, hi)
 					want := expectedSubrange(txs, n, lo, hi)
 					same := err == nil && len(got) == len(want)
 					if same {
@@ -1074,6 +1119,47 @@ func genC11(c *Ctx) {
 			c.count("very_long_unit")
 			c.goOnly++
 		}
+	}
+	// Go side only: LONG ranges (more than 64, 128, 256 shares) over sequences in which many transactions cover
+	// whole shares, so that shares WITHOUT a unit start (reserved bytes 0) lie all over the sequence and not only
+	// in a prefix of the range; ranges from every lo to a handful of far ends
+	for v := 0; v < 3; v++ {
+		target := (70 + r.Intn(230)) * 478
+		var txs [][]byte
+		for total := 0; total < target; {
+			l := pick(r, []int{1, 5, 30, 200, 477, 478, 600, 1000, 1500, 3000, 7000})
+			if r.Bool(30) {
+				l = 500 + r.Intn(4000)
+			}
+			txs = append(txs, r.Bytes(l))
+			total += l + 2
+		}
+		css := share.NewCompactShareSplitter(share.TxNamespace, 0)
+		for _, t := range txs {
+			_ = css.WriteTx(t)
+		}
+		shs, err := css.Export()
+		if !c.check(err == nil && len(shs) > 66, "CompactShareSplitter.Export", "error on a long sequence", map[string]any{"txs": len(txs)}) {
+			continue
+		}
+		n := len(shs)
+		for lo := 0; lo < n; lo++ {
+			for _, hi := range []int{lo + 64, lo + 65, lo + 66, lo + 129, lo + 130, lo + 257, n, lo + 1 + r.Intn(n-lo)} {
+				if hi > n {
+					continue
+				}
+				got, err := parseTxsGuarded(c, shs[lo:hi], lo, hi)
+				want := expectedSubrange(txs, n, lo, hi)
+				same := err == nil && len(got) == len(want)
+				for j := 0; same && j < len(want); j++ {
+					same = bytes.Equal(got[j], want[j])
+				}
+				c.check(same, "ParseTxs(sub-range)", "result differs from the transactions that begin in the range and are complete in it (long range)",
+					map[string]any{"txs": len(txs), "lo": lo, "hi": hi, "shares": n, "got": len(got), "want": len(want)})
+			}
+		}
+		c.count("long_range_many_whole_share_txs")
+		c.goOnly++
 	}
 	for i := 0; i < nseq+len(corpus); i++ {
 		ns := share.TxNamespace.Bytes()
@@ -1124,7 +1210,7 @@ func genC11(c *Ctx) {
 		n := len(shs)
 		for lo := 0; lo < n; lo++ {
 			for hi := lo + 1; hi <= n; hi++ {
-				got, err := share.ParseTxs(shs[lo:hi])
+				got, err := parseTxsGuarded(c, shs[lo:hi], lo, hi)
 				want := expectedSubrange(txs, n, lo, hi)
 				same := err == nil && len(got) == len(want)
 				if same {
